@@ -558,6 +558,7 @@ func (w *Worker) runPath(h *Harness, prefix []dec) (res pathResult) {
 	i.clock = 0
 	i.uuidSeq = 0
 	i.jsonRaws = nil
+	i.parseText = nil
 	i.tr.on = true
 	i.pathDeadline = time.Now().Add(w.ex.pathTimeout)
 	w.solver.BeginPath()
